@@ -112,6 +112,8 @@ func vhC02Shapes(k int) []vhPgon {
 		return []vhPgon{{{3, 0}, {0, 3}, {1, 0}, {2, 2}, {1, 2}}}
 	case 21: // the same with the vertex on an edge of another contour, slope -2
 		return []vhPgon{{{4, 0}, {0, 8}, {0, 0}}, {{2, 4}, {6, 4}, {6, 6}}}
+	case 22: // three self-crossing heptagons on a 5x5 grid with many collinear overlapping edges (finding D94)
+		return []vhPgon{{{2, 2}, {4, 2}, {2, 3}, {2, 4}, {3, 0}, {1, 1}}, {{0, 2}, {3, 2}, {1, 3}, {4, 1}, {0, 3}, {4, 4}, {2, 1}}, {{3, 2}, {1, 2}, {2, 3}, {0, 1}, {1, 3}, {3, 3}, {2, 0}}}
 	default: // stacked triangular holes
 		return []vhPgon{vhRect(0, 0, 10, 12, true), {{3, 2}, {5, 4}, {7, 2}}, {{3, 6}, {5, 9}, {7, 6}}}
 	}
@@ -131,7 +133,7 @@ func vhC02Tail(k int) (vhPgon, []vhPgon) {
 	return nil, nil
 }
 
-const vhC02NShapes = 22
+const vhC02NShapes = 23
 
 // C02: Settle(rule) fills exactly what the input fills under the rule; output windings are 0/1
 // and every output contour's orientation makes NonZero, EvenOdd and Positive agree.
@@ -148,6 +150,10 @@ func VH_C02_settle_region_Q() {
 	before := vhCopyData(p.d)
 	rule := FillRule(vChoose(0, 3))
 	vKnown("D74", shape == 16)
+	vKnown("D94", shape == 22)
+	if shape == 22 && rule == EvenOdd && vTier() == 0 {
+		return // the one rule under which shape 22 settles: about 100 result edges, 2 minutes of queries (thorough tier only)
+	}
 	// the three public entry points must agree
 	var r *Path
 	switch vChoose(0, 2) {
